@@ -295,6 +295,19 @@ def _check_tree(case):
     A = np.zeros((neq, len(tv)))
     B = np.zeros((neq, len(tv)))
     tvset = {(t.qid, t.shift) for t in tv}
+    # every occurrence with a non-zero derivative has a column: (j, k) in the vector (A, G), or as the lag of a
+    # column (j, k+1) whose own lag is not in the vector (B)
+    for r in range(neq + (1 if case["meas"] else 0)):
+        d_ = own_now[r][1] if r < neq else dict(m_now[1])
+        for key, val in d_.items():
+            if key[0] != "v" or not val:
+                continue
+            _, j, k = key
+            q = n2q[vn[j]]
+            placed = (q, k) in tvset or (r < neq and (q, k + 1) in tvset)
+            col.check(placed, "systemize:occurrence_without_column",
+                      lambda: f"{'measurement' if r >= neq else 'transition'} equation {r}: occurrence {vn[j]}{{{k}}} has derivative {val!r} "
+                              f"but no column in the transition vector {[(q2n[t.qid], t.shift) for t in tv]}\n{src}")
     for r in range(neq):
         for c, t in enumerate(tv):
             A[r, c] = expected_for(r, q2n[t.qid], t.shift, flat_var, ysteady)
@@ -336,23 +349,37 @@ def _fd_check(col, bucket, eval_func, eval_jacob, x0, offsets, args=(), where=""
     n = x.size
     if n == 0:
         return 0
+    x_other = x.copy()                          # the solver's own starting point: admissible, and another point
     x = x + np.resize(np.asarray(offsets, dtype=float), n)
+
+    def jac():
+        J_ = eval_jacob(x.copy(), *args)
+        return J_.toarray() if hasattr(J_, "toarray") else np.asarray(J_, dtype=float)
+
+    # the Jacobian at x is asked for (i) before anything else was evaluated, (ii) right after the function at x,
+    # (iii) after the function was last evaluated at another point: the evaluation point is the argument, not a state
+    J_fresh = jac()
     f0 = np.asarray(eval_func(x.copy(), *args), dtype=float)
     if not np.all(np.isfinite(f0)):
         return 0
-    J = eval_jacob(x.copy(), *args)
-    J = J.toarray() if hasattr(J, "toarray") else np.asarray(J, dtype=float)
-    if J.shape != (f0.size, n):
-        col.fail(bucket + ":shape", f"Jacobian shape {J.shape} for {f0.size} equations and {n} unknowns {where}")
+    J_after = jac()
+    if J_after.shape != (f0.size, n):
+        col.fail(bucket + ":shape", f"Jacobian shape {J_after.shape} for {f0.size} equations and {n} unknowns {where}")
         return 0
     fd = np.column_stack([_richardson(lambda z: eval_func(z, *args), x, k, 1e-4 * max(1.0, abs(x[k]))) for k in range(n)])
     if not np.all(np.isfinite(fd)):
         return 0
+    eval_func(x_other.copy(), *args)
+    J_stale = jac()
     sc = max(float(np.max(np.abs(fd), initial=0.0)), 1e-3)
-    err = np.abs(J - fd)
-    if not (np.all(np.isfinite(J)) and float(err.max(initial=0.0)) <= 1e-6 * sc):
-        r, c = np.unravel_index(int(np.argmax(np.where(np.isfinite(err), err, np.inf))), err.shape)
-        col.fail(bucket, f"Jacobian[{r},{c}] = {J[r, c]!r}, central difference {fd[r, c]!r} {where}")
+    for tag, J in (("", J_after), (":first_call", J_fresh), (":after_other_point", J_stale)):
+        if J.shape != fd.shape:
+            col.fail(bucket + tag + ":shape", f"Jacobian shape {J.shape} expected {fd.shape} {where}")
+            continue
+        err = np.abs(J - fd)
+        if not (np.all(np.isfinite(J)) and float(err.max(initial=0.0)) <= 1e-6 * sc):
+            r, c = np.unravel_index(int(np.argmax(np.where(np.isfinite(err), err, np.inf))), err.shape)
+            col.fail(bucket + tag, f"Jacobian[{r},{c}] = {J[r, c]!r}, central difference {fd[r, c]!r} {where}")
     return 1
 
 
